@@ -137,6 +137,9 @@ pub fn profile_c23() -> Profile {
         events: (20, 200),
         w_id_fuzz: 6,
         id_fuzz_kinds: vec![7],
+        // filters also arrive inside sync messages (Message::decode parses them on its own path) and are then queried by
+        // receive_sync_message / generate_sync_message
+        w_recv_corrupt: 3,
         mut_classes: vec![FieldExtreme, BitFlip, Truncate, ByteSet],
         long_chain_permille: 200,
         bloom_fp: vec![0],
@@ -203,7 +206,9 @@ impl SyncOracle {
             Ok(m) => m,
             Err(e) => return Err(self.fail(w, "own_message_decodes", "own-message-undecodable", format!("replica {from} produced a message that does not decode: {e}"))),
         };
-        if self.id == "C23" || self.id == "C20" {
+        // (a replica whose sync state was built from a corrupted message is exempt: what it then advertises - e.g. the empty
+        // Have of a reset - is no longer a statement about its own changes; it is still never exempt from "no panic")
+        if (self.id == "C23" || self.id == "C20") && !w.reps[from].tainted {
             for have in &msg.have {
                 w.stats.bump("probe.bloom_have_checked");
                 let members = w.reps[from].doc.document().get_changes(&have.last_sync);
@@ -230,6 +235,49 @@ impl SyncOracle {
                         Err(e) => return Err(violation("C23", "own_filter_decodes", "own-bloom-undecodable", w.step, format!("replica {from}: filter bytes do not decode: {e}"))),
                     }
                 }
+            }
+        }
+        Ok(())
+    }
+
+    /// "A Bloom filter built from a set of change hashes reports every member as present": besides the sets histories
+    /// produce (whose hashes are uniformly random), one set per run is built by the harness through the public
+    /// `BloomFilter::from_hashes`, mixing the run's real hashes with hashes whose three 32-bit probe words sit at the edges of
+    /// their range (0, 1, 2^31, 2^32-1, ...) - the inputs on which modular probe arithmetic goes wrong, and which a random
+    /// hash meets once in a million.
+    fn constructed_filter(&mut self, w: &mut World) -> Result<(), Violation> {
+        let mut rng = crate::prng::Rng::new(((w.cfg.p1 as u64) << 32 | w.cfg.p2 as u64) ^ 0xB100_F117);
+        let edges: [u32; 8] = [0, 1, 2, 0x7fff_ffff, 0x8000_0000, 0xffff_fffe, 0xffff_ffff, 0xffff_ff00];
+        let mut set: Vec<automerge::ChangeHash> = w.reg.order.iter().take(rng.usize(200)).map(|h| automerge::ChangeHash(*h)).collect();
+        for _ in 0..1 + rng.usize(12) {
+            let mut h = [0u8; 32];
+            for b in h.iter_mut() {
+                *b = rng.below(256) as u8;
+            }
+            for word in 0..3 {
+                if rng.chance(700) {
+                    let v = if rng.chance(800) { *rng.pickv(&edges) } else { u32::MAX - rng.below(4096) as u32 };
+                    h[word * 4..word * 4 + 4].copy_from_slice(&v.to_le_bytes());
+                }
+            }
+            set.push(automerge::ChangeHash(h));
+        }
+        crate::monitor::set_subcontext("constructed bloom filter");
+        let f = automerge::sync::BloomFilter::from_hashes(set.iter());
+        let back = automerge::sync::BloomFilter::try_from(f.to_bytes().as_slice());
+        w.stats.bump("probe.constructed_filter");
+        w.stats.add("probe.constructed_filter_members", set.len() as u64);
+        for h in &set {
+            if !f.contains_hash(h) {
+                return Err(violation("C23", "no_false_negatives", "bloom-false-negative:constructed-set", w.step, format!("from_hashes over {} hashes does not contain its member {}", set.len(), hex::encode(h.0))));
+            }
+            match &back {
+                Ok(b) => {
+                    if !b.contains_hash(h) {
+                        return Err(violation("C23", "no_false_negatives_after_roundtrip", "bloom-false-negative-after-decode:constructed-set", w.step, format!("after encode/decode the filter over {} hashes does not contain its member {}", set.len(), hex::encode(h.0))));
+                    }
+                }
+                Err(e) => return Err(violation("C23", "own_filter_decodes", "own-bloom-undecodable", w.step, format!("constructed filter does not decode: {e}"))),
             }
         }
         Ok(())
@@ -344,6 +392,9 @@ impl Oracle for SyncOracle {
     }
 
     fn finish(&mut self, w: &mut World) -> Result<(), Violation> {
+        if self.id == "C23" {
+            self.constructed_filter(w)?;
+        }
         // faults off
         let forced = automerge::verif_hooks::with(|c| {
             let f = c.bloom_forced;
